@@ -3,6 +3,7 @@ From Coq Require Import List NArith String Bool.
 From V Require Import Base.Util Base.Strings Base.Result Model.Registry Model.Settings Model.Subst
   Model.TypePath Model.Derives Model.Generate Model.Emit Model.Equal Model.WellFormed Model.Builders
   Checkers.Parse Checkers.Sem Corr.RunTG.
+Require V.Model.Shape.
 Import ListNotations.
 Open Scope string_scope. Open Scope list_scope.
 
@@ -49,7 +50,14 @@ Definition skeleton_consistentb (r : registry) (s : settings) : bool :=
                end
              else true) r.
 
+(** the hypotheses of the pinned theorem [C01_fidelity]: Model/Shape.v's skeleton consistency
+    (erased IRs are equal) and root freshness, evaluated on every generated input *)
 Definition hyp_coincidence_free (c : tg_case) : bool :=
+  V.Model.Shape.skeleton_consistentb (tg_reg c) (settings_of (tg_spec c)) &&
+  V.Model.Shape.root_freshb (settings_of (tg_spec c)).
+
+(** the token-based variant (skeletons compared through their emitted tokens) *)
+Definition hyp_skeleton_tokens (c : tg_case) : bool :=
   skeleton_consistentb (tg_reg c) (settings_of (tg_spec c)).
 
 (** C01 on the observed output: every id whose path was resolved is faithfully
